@@ -495,7 +495,10 @@ def C10(tier, seed):
     g2, g3 = (2, 1, 2), (3, 1, 2)
     specs = [("paint", 2, g2, {"disable": ["area"]}), ("paint", 2, g2, {"all_rp": True, "disable": ["circularity", "pos"]}),
              ("UserAddEdge", 3, g3, {"iou": True, "disable": ["iou"]}),
-             ("paint", 2, g3, {"iou": True, "disable": ["iou"]})]
+             ("paint", 2, g3, {"iou": True, "disable": ["iou"]}),
+             # a feature switched off BETWEEN an edit and its undo stays untouched by the undo
+             ("paint", 2, g2, {"disable_mid": "area"}), ("paint", 2, g2, {"iou": True, "disable_mid": "iou"}),
+             ("UserDeleteNode", 2, g2, {"disable_mid": "area"})]
     runs += R.seg_runs("C10", tier, specs)
     from harness import step, step_replay
     nn = 3 if q else 4
